@@ -426,7 +426,63 @@ def check_C18(chk):
                         'immediately before it takes effect; power-failure durability (fsync ordering) is not modelled']
 
 
-CHECKS = {'C18': check_C18, 'C15': check_C15, 'C09': check_C09, 'C08': check_C08, 'C11': check_C11, 'C10': check_C10, 'C01': check_C01, 'C02': check_C02, 'C03': check_C03}
+def check_C17(chk):
+    import cli, subprocess
+    q = chk.tier == 'quick'
+    chk.rule = ('JaqCli: TLC explores the command-line state machine (main loop / input / inputs pulling from ONE cursor per file, writer, exit status) '
+                'for every pair of input files with up to MaxItems items each (an item is a value or text that does not parse), every script over '
+                '{., input, inputs, [inputs], first(inputs), limit(2; inputs), error, halt(7), false, empty, a stderr side effect} of length <= 3, '
+                'with/without --null-input and --exit-status, checking exactly-once in-order consumption, outputs only of consumed well-formed values and '
+                'the exit status table; every terminated behaviour is replayed on the real binary (files, and the single-stream cases also via stdin; '
+                'stdout bytes, exit status, and stdout/stderr interleaving for the side-effect scripts). MC_CliIO: every subset of -c -r -j -S --tab '
+                '--indent n --raw-output0 x values (strings with newline/quote/NUL/multi-byte/control characters, nested and empty containers, unsorted keys) '
+                'with the expected bytes from the TLA+ writer JaqCodec, and -R / -Rs / --raw-input0 / --raw-input0 -s x byte streams, by file and by stdin.')
+    vlib.build_jaq()
+    mi = 2 if q else 3
+    cfg = f'SPECIFICATION Spec\nCONSTANTS\n  MaxItems = {mi}\n  NFiles = 2\n' + ''.join(f'INVARIANT {i}\n' for i in
+          ['ConsumedIsPrefix', 'OnlyConsumed', 'StatusOk', 'Terminates', 'EmitVec']) + 'CHECK_DEADLOCK FALSE\n'
+    res = run_spec_only(chk, 'machine', 'JaqCli', cfg)
+    vecs = [json.loads(l) for l in vlib.tagged_lines(res['out'], 'VEC')]
+    extra = [dict(v, stdin=True) for v in vecs if cli.via_stdin(v)]
+    wd = os.path.join(W, 'cli')
+    results = cli.replay(vlib.JAQ, vecs + extra, wd)
+    chk.evaluations += len(results)
+    for r in results:
+        if not r['ok']:
+            chk.violation('cli:' + r['cmd'], f"{r['cmd']}: {r['why']}", r)
+    chk.nontrivial = set(i for i, v in enumerate(vecs + extra) if len(v['script']) > 1 or v['status'] != 0)
+    for v in (vecs[7], vecs[len(vecs) // 2], vecs[-3]):
+        chk.sample({'files': v['files'], 'filter': ', '.join(cli.OPTEXT[o] for o in v['script']), 'null_input': v['nullin'], 'exit_status': v['estatus'],
+                    'expected_outputs': v['out'], 'expected_status': v['status']})
+    # option suites
+    nio = 0
+    for suite in ('output', 'input'):
+        r2 = run_spec_only(chk, 'io-' + suite, 'MC_CliIO', f'SPECIFICATION Spec\nCONSTANT Suite = "{suite}"\nINVARIANT TypeOK\nCHECK_DEADLOCK FALSE\n')
+        os.makedirs(os.path.join(W, 'cliio'), exist_ok=True)
+        enc = lambda cps: b''.join((chr(c).encode() if c >= 0 else bytes([-c])) for c in cps)
+        for l in vlib.tagged_lines(r2['out'], 'VEC'):
+            v = json.loads(l)
+            nio += 1
+            data = enc(v['stdin'])
+            if v['viafile']:
+                fp = os.path.join(W, 'cliio', 'in.bin')
+                open(fp, 'wb').write(data)
+                p = subprocess.run([vlib.JAQ] + v['args'] + [fp], stdout=subprocess.PIPE, stderr=subprocess.PIPE)
+            else:
+                p = subprocess.run([vlib.JAQ] + v['args'], input=data, stdout=subprocess.PIPE, stderr=subprocess.PIPE)
+            exp = enc(v['out'])
+            if p.stdout != exp or p.returncode != v['status']:
+                key = f"io:{' '.join(v['args'])}:{data!r}:{'file' if v['viafile'] else 'stdin'}"
+                chk.violation(key, f"jaq {' '.join(v['args'])} on {data!r} ({'file' if v['viafile'] else 'stdin'}): stdout {p.stdout!r} status {p.returncode}, expected {exp!r} status {v['status']}", v)
+    chk.evaluations += nio
+    chk.traces = len(results) + nio
+    chk.extra['machine_behaviours'] = len(vecs)
+    chk.extra['io_cases'] = nio
+    chk.assumptions += ['filters are the scripts of the model (the semantics of arbitrary filters is C01); --arg/--argjson/--slurpfile/--rawfile/--args/$ENV/'
+                        'input_filename/-f and colour options are not modelled yet; -j without -r on strings is left open (the manual does not say whether they are written raw)']
+
+
+CHECKS = {'C17': check_C17, 'C18': check_C18, 'C15': check_C15, 'C09': check_C09, 'C08': check_C08, 'C11': check_C11, 'C10': check_C10, 'C01': check_C01, 'C02': check_C02, 'C03': check_C03}
 
 
 def main():
